@@ -320,9 +320,9 @@ class _NodeBuilder:
         if viewable:
             opts += ["view"] * 3
         if self.allow_mismatch and narrow:
-            opts += ["narrow"]
+            opts += ["narrow"] * 3
         if self.allow_mismatch and wide_same:
-            opts += ["wide"]
+            opts += ["wide"] * 2
         if n_in_ports < 5 or not opts:
             opts += ["new"] * 4 + (["newwide"] * 2 if self.allow_conv or k == "bv" else [])
         o = d(st.sampled_from(opts))
@@ -466,7 +466,7 @@ def _node(draw, idx, templates, children, name, allow_mismatch, allow_conv):
 def hier_specs(draw):
     n_leaf = draw(st.integers(1, 3))
     templates = [_leaf(draw, i) for i in range(n_leaf)]
-    allow_mismatch = draw(st.integers(0, 4)) == 0
+    allow_mismatch = draw(st.integers(0, 3)) == 0
     allow_conv = draw(st.integers(0, 2)) == 0
     n_mid = draw(st.sampled_from([0, 0, 1, 1, 2]))
     for m in range(n_mid):
